@@ -232,6 +232,11 @@ def run_shard(mod, ctx: Ctx, replay_case=None):
         else:
             cases = _all_cases(mod, ctx)
         for case in cases:
+            if ctx.out_of_time() and replay_case is None:
+                # soft wall-clock budget of this shard: stop generating new cases (what was
+                # executed so far is judged normally; minimum counters still apply)
+                ctx.count("stopped_by_soft_budget")
+                break
             ctx.current_case = case
             gseed = case.get("seed", 0) if isinstance(case, dict) else 0
             random.seed(f"case:{gseed}")
